@@ -1,5 +1,5 @@
 SPECIFICATION Spec
-CONSTANT Depth = 3
+CONSTANT Depth = 4
 CONSTANT Pdks = {"pa", "pb", "pc"}
 INVARIANT DefaultIsRegistered
 ACTION_CONSTRAINT Emit
